@@ -392,6 +392,12 @@ func c17(ctx *run.Ctx) {
 		ctx.Case(fmt.Sprintf("window/float32/%d", b), func(cc *run.Case) { windowExtremes(cc, "float32", append([]float32{-inf32, inf32}, f32...)) })
 		ctx.Case(fmt.Sprintf("window/float64/%d", b), func(cc *run.Case) { windowExtremes(cc, "float64", append([]float64{-inf64, inf64}, f64...)) })
 		ctx.Case(fmt.Sprintf("window/float64small/%d", b), func(cc *run.Case) { windowExtremes(cc, "float64", smallf) })
+		// NaN can neither be ordered nor found again: the window operators skip
+		// it (a window without any number is exempt)
+		ctx.Case(fmt.Sprintf("window/float64nan/%d", b), func(cc *run.Case) { windowExtremes(cc, "float64", append([]float64{math.NaN(), math.NaN()}, smallf...)) })
+		ctx.Case(fmt.Sprintf("window/float32nan/%d", b), func(cc *run.Case) {
+			windowExtremes(cc, "float32", []float32{float32(math.NaN()), -2, -0.5, 0, 1, 1, 3, inf32})
+		})
 	}
 	// Exhaustive small scope: every history of length <= L over 3 letters.
 	maxL := ctx.Pick(5, 7)
@@ -456,14 +462,23 @@ func windowExtremes[T helper.Number](cc *run.Case, typ string, pool []T) {
 			return
 		}
 		for k := 0; k < want; k++ {
-			hi, lo := xs[k], xs[k]
+			var hi, lo T
+			seen := false
 			for _, v := range xs[k : k+period] {
-				if v > hi {
+				if v != v { // NaN: not a member of the multiset
+					continue
+				}
+				if !seen || v > hi {
 					hi = v
 				}
-				if v < lo {
+				if !seen || v < lo {
 					lo = v
 				}
+				seen = true
+			}
+			if !seen {
+				cc.Count("window_without_a_number_exempt", 1)
+				continue
 			}
 			if gotMax[k] != hi {
 				cc.Viol("", fmt.Sprintf("MovingMax[%s] period %d: window %d = %v yields %v, its maximum is %v", typ, period, k, xs[k:k+period], gotMax[k], hi), desc)
